@@ -223,6 +223,13 @@ def end_to_end(run, driver, n):
         model = np_model(features=features, robust=robust)
         if rep.shape[0] < model.get_minimum_reporting_units(alpha) or nonrep.shape[0] == 0:
             continue
+        if rng.random() < 0.35:
+            # the frames need not carry a default index (a caller may have filtered or re-ordered them): everything is positional
+            nonrep = nonrep.copy()
+            nonrep.index = [1000 + 7 * j for j in range(nonrep.shape[0])][::-1]
+            rep = rep.copy()
+            rep.index = [5 + 3 * j for j in range(rep.shape[0])]
+            case["non_default_index"] = True
         if rng.random() < 0.4:
             # close to the minimum the training set is a unit or two: fewer rows than coefficients, smallest calibration sets
             keep = min(rep.shape[0], model.get_minimum_reporting_units(alpha) + rng.choice([0, 1, 2]))
@@ -299,7 +306,7 @@ def end_to_end(run, driver, n):
             xl = max((lows[j] - c) * wn[j] + wn[j], part[j])
             xu = max((ups[j] + c) * wn[j] + wn[j], part[j])
             for x, g in ((xl, got_l[j]), (xu, got_u[j])):
-                if g != int(g) or abs(Fraction(int(g)) - x) > Fraction(1, 2) + Fraction(1, 10**6):
+                if math.isnan(g) or math.isinf(g) or g != int(g) or abs(Fraction(int(g)) - x) > Fraction(1, 2) + Fraction(1, 10**6):
                     bad = (j, float(x), g)
         if bad:
             run.violation("unit interval is not the regression bounds widened symmetrically by the calibrated correction",
@@ -315,6 +322,8 @@ def end_to_end(run, driver, n):
             continue
         ops = [{"op": "conf.final", "l": C.rat(lows[j]), "u": C.rat(ups[j]), "c": C.rat(mc), "w": C.rat(wn[j]),
                 "part": C.rat(part[j])} for j in range(len(lows))]
+        if bad:
+            continue
         for j, r in enumerate(driver.run(ops)):
             near = False
             for rawv in (C.unrat(r[2]), C.unrat(r[3])):
@@ -331,6 +340,42 @@ def end_to_end(run, driver, n):
         run.traces += 1
 
 
+def api_levels(run, n):
+    """through the client: the interval reported for a level is the interval of *that* level - the same whether the level is asked
+    for alone or together with others, in any order; and the wider level contains the narrower one"""
+    rng = run.rng
+    for _ in range(n):
+        e = E.gen_election(rng, size="medium", roles=["reporting"] * 6 + ["partial"] * 3, unexpected=False, min_reporting=24)
+        alphas = rng.choice([[0.7, 0.5], [0.5, 0.7], [0.8, 0.5, 0.7], [0.6, 0.8]])
+        est = rng.choice(["turnout", "dem"])
+        case = {"api_levels": True, "election": e.describe(), "alphas": alphas, "estimand": est}
+        full = E.run_client(e, estimands=[est], alphas=alphas, pi_method="nonparametric", features=[], aggregates=["postal_code", "unit"])
+        run.case(case, True)
+        run.count("api levels")
+        if "raises" in full:
+            continue
+        ok = True
+        for a in alphas:
+            one = E.run_client(e, estimands=[est], alphas=[a], pi_method="nonparametric", features=[], aggregates=["postal_code", "unit"])
+            if "raises" in one:
+                continue
+            for tname in ("unit_data", "state_data"):
+                f, o = full["tables"][tname], one["tables"][tname]
+                for col in (f"lower_{a}_{est}", f"upper_{a}_{est}"):
+                    if list(f[col]) != list(o[col]):
+                        run.violation("the interval reported for a level depends on which other levels were requested (it is not the "
+                                      "calibrated interval of that level)", input=case, impl={"table": tname, "column": col},
+                                      predicate="pop_calibrated (reported per level)", signature="C04:api-level", election=e.to_json())
+                        ok = False
+                        break
+                if not ok:
+                    break
+            if not ok:
+                break
+        if ok:
+            run.traces += 1
+
+
 def extract(run):
     return X.generate("C04")
 
@@ -340,6 +385,7 @@ def explore(run, driver, budget):
     n = {"quick": (400, 25, 60), "thorough": (20000, 600, 2500), "search": (3000, 120, 400)}[budget]
     direct(run, driver, n[0])
     leave_one_out(run, driver, n[2])
+    api_levels(run, {"quick": 4, "thorough": 150, "search": 20}[budget])
     end_to_end(run, driver, n[1])
 
 
